@@ -185,6 +185,65 @@ theorem post_announced_and_persisted (template : Bytes) (clients : List Nat) (na
   obtain ⟨c, _, rfl⟩ := he
   rfl
 
+/-- Acknowledged ⇒ on disk, also when persisting FAILS (the outcome of the persist step is an input): an
+    acknowledged post is in the file, which equals the board, and was announced to every client; a post whose
+    persisting failed is neither acknowledged nor announced and leaves the file as it was. -/
+theorem ack_implies_on_disk (persistOk : Bool) (template : Bytes) (clients : List Nat) (name date body : Bytes) (s : Store) :
+    ((handlePostF persistOk template clients name date body s).acked = true →
+      (handlePostF persistOk template clients name date body s).store.file = formatPost template name date body ++ s.data ∧
+      (handlePostF persistOk template clients name date body s).store.file =
+        (handlePostF persistOk template clients name date body s).store.data ∧
+      (handlePostF persistOk template clients name date body s).notes.map (·.1) = clients) ∧
+    ((handlePostF persistOk template clients name date body s).acked = false →
+      (handlePostF persistOk template clients name date body s).notes = [] ∧
+      (handlePostF persistOk template clients name date body s).store.file = s.file) := by
+  have h := post_announced_and_persisted template clients name date body s
+  cases persistOk with
+  | true =>
+    refine ⟨fun _ => ⟨?_, ?_, ?_⟩, fun hf => by simp [handlePostF] at hf⟩
+    · simp only [handlePostF, if_true]; rw [h.2.1, h.1]
+    · simp only [handlePostF, if_true]; exact h.2.1
+    · simp only [handlePostF, if_true]; exact h.2.2.1
+  | false =>
+    exact ⟨fun ht => by simp [handlePostF] at ht, fun _ => by simp [handlePostF, failedWrite]⟩
+
+/-- Operator reload (`FlatNews.Reload`, one step under the store's lock) between any operations changes nothing:
+    after every schedule the file equals the board and holds no `\n`, so reloading it yields the same store –
+    no post is lost, readers keep getting the same text. -/
+theorem reload_harmless (init : Store) (procs : List (List Op)) (sched : List Op)
+    (hm : Interleave procs sched) (hwf : ∀ p ∈ procs, ∀ op ∈ p, op.WF) (h0 : init.file = init.data)
+    (hnl : (10 : UInt8) ∉ init.data) (hp : ∀ p ∈ postsOf sched, (10 : UInt8) ∉ p) :
+    reloadStep (runOps init sched).1 = (runOps init sched).1 := by
+  have hw : ∀ op ∈ sched, op.WF := by
+    intro op hop
+    have : op ∈ procs.flatten := hm.perm.mem_iff.mp hop
+    obtain ⟨p, hp', hop'⟩ := List.mem_flatten.mp this
+    exact hwf p hp' op hop'
+  have hfile := runOps_file_inv sched init hw h0
+  have hdata := runOps_data sched init hw
+  have hno : (10 : UInt8) ∉ (runOps init sched).1.data := by
+    rw [hdata]; exact boardAfter_no_nl init.data sched hnl hp
+  have hre : nl2cr (runOps init sched).1.file = (runOps init sched).1.data := by
+    rw [hfile]; exact nl2cr_id _ hno
+  cases hs : (runOps init sched).1 with
+  | mk d c f =>
+    rw [hs] at hre
+    simp only [reloadStep]
+    simp only at hre
+    rw [hre]
+
+/-- NEGATIVE WITNESS (a `Reload` that reads the file BEFORE taking the lock): reload reads the file, a post
+    completes (memory and file), reload installs its stale snapshot – the post is gone from the served board;
+    the next post persists memory over the file and the acknowledged post is gone from disk too. -/
+theorem reload_outside_lock_loses_post :
+    ∃ (s : Store) (p q : Bytes),
+      let snapshot := nl2cr s.file                                  -- Reload: ReadFile + convert, no lock yet
+      let s1 := (execOp s (.post p)).1                              -- a post is acknowledged in between
+      let s2 : Store := { s1 with data := snapshot }                -- Reload: lock; f.data = snapshot
+      let s3 := (execOp s2 (.post q)).1                             -- the next post
+      s1.file = p ++ s.data ∧ s2.data = s.data ∧ s3.file = q ++ s.data ∧ s3.file ≠ q ++ p ++ s.data :=
+  ⟨⟨[1, 2], 0, [1, 2]⟩, [7], [8], by decide⟩
+
 /-! Obligations over facts regenerated from /repo's source on every run. -/
 
 /-- `ReadMessageBoard`, `PostMessageBoard`, `ReadAgreement` take the server's mutex as their first
@@ -210,6 +269,13 @@ theorem no_access_outside_critical_sections :
     ∀ e ∈ Generated.boardFieldUses,
       e.1 = "hotline.Server.ReadMessageBoard" ∨ e.1 = "hotline.Server.PostMessageBoard" ∨
       e.1 = "hotline.Server.ReadAgreement" := by decide
+
+/-- `Read`, `Write` and `Reload` of both stores take the store's own lock before anything else (in `Reload`:
+    before the file is read). -/
+theorem store_methods_locked : ∀ e ∈ Generated.storeLockFirst, e.2 = true := by decide
+
+/-- `HandleTranOldPostNews` ends when `PostMessageBoard` reports an error (nothing announced, nothing acknowledged). -/
+theorem post_error_ends_handler : Generated.postErrorHandling = "returns" := by decide
 
 /-- `FlatNews.Write` prepends (`slices.Concat(p, f.data)`) and persists `f.data`. -/
 theorem write_prepends : Generated.flatNewsWriteShape = ("slices.Concat(p, f.data)", "f.data") := by decide
